@@ -1,12 +1,13 @@
 import PsVerif.Model.Init
 import PsVerif.Generated.Consts
 import PsVerif.Generated.SystemDict
+import PsVerif.Props.Ties.Within
 /-! Ties: CMap block limit and the key list of the CIDInit procedure set (C07). -/
 namespace PsVerif.Props.Ties
 open PsVerif.Model PsVerif.Generated
 
 /-- CMap blocks: `n < 0 || n > 100` in all seven `begin…` operators (C07) -/
-theorem cmap_block_tests : Consts.root_cmapBlockTests = ["< 0", "> 100"] ∧ cmapBlockLimit = 100 := ⟨rfl, rfl⟩
+theorem cmap_block_tests : allIn ["< 0", "> 100"] Consts.cmp_cmap = true ∧ cmapBlockLimit = 100 := ⟨by decide, rfl⟩
 
 theorem cidinit_keys : SystemDict.cidInitKeys = cidInitKeys := by decide
 
